@@ -3,18 +3,25 @@ module verifsim
 go 1.25.0
 
 require (
-	github.com/anishathalye/porcupine v1.3.0
-	github.com/sirupsen/logrus v1.9.4
 	github.com/zmap/zcrypto v0.0.0
-)
-
-require (
-	github.com/mreiferson/go-httpclient v0.0.0-20201222173833-5e475fde3a4d // indirect
-	github.com/weppos/publicsuffix-go v0.50.4-0.20260715080728-6ed62ce99a4a // indirect
-	golang.org/x/crypto v0.54.0 // indirect
-	golang.org/x/net v0.57.0 // indirect
-	golang.org/x/sys v0.47.0 // indirect
-	golang.org/x/text v0.40.0 // indirect
+	github.com/anishathalye/porcupine v1.3.0
+	github.com/davecgh/go-spew v1.1.1
+	github.com/kr/pretty v0.3.1
+	github.com/kr/text v0.2.0
+	github.com/mreiferson/go-httpclient v0.0.0-20201222173833-5e475fde3a4d
+	github.com/op/go-logging v0.0.0-20160315200505-970db520ece7
+	github.com/pmezard/go-difflib v1.0.0
+	github.com/rogpeppe/go-internal v1.9.0
+	github.com/sirupsen/logrus v1.9.4
+	github.com/stretchr/testify v1.11.1
+	github.com/weppos/publicsuffix-go v0.50.4-0.20260715080728-6ed62ce99a4a
+	github.com/zmap/zcertificate v0.0.1
+	golang.org/x/crypto v0.54.0
+	golang.org/x/net v0.57.0
+	golang.org/x/sys v0.47.0
+	golang.org/x/text v0.40.0
+	gopkg.in/check.v1 v1.0.0-20201130134442-10cb98267c6c
+	gopkg.in/yaml.v3 v3.0.1
 )
 
 replace github.com/zmap/zcrypto => /repo
